@@ -138,11 +138,14 @@ type fake struct {
 	events   []event
 	curSend  int
 	ntoken   int
+	// tokenFails: the token service answers 503 to that many token requests before it hands out tokens
+	tokenFails int
+	ntreq      int
 }
 
 // reset prepares a replay of the recorded script.
 func (f *fake) reset() {
-	f.pos, f.events, f.curSend, f.ntoken = 0, nil, 0, 0
+	f.pos, f.events, f.curSend, f.ntoken, f.ntreq = 0, nil, 0, 0, 0
 	f.t0 = time.Now()
 }
 
@@ -176,6 +179,11 @@ func (f *fake) RoundTrip(req *http.Request) (*http.Response, error) {
 		if req.Body != nil {
 			io.Copy(io.Discard, req.Body)
 			req.Body.Close()
+		}
+		f.ntreq++
+		if f.ntreq <= f.tokenFails {
+			f.events = append(f.events, event{kind: 'T', send: f.curSend, t: now, method: req.Method, b: b503})
+			return f.response(req, 503, http.Header{}, ""), nil
 		}
 		f.ntoken++
 		f.events = append(f.events, event{kind: 'T', send: f.curSend, t: now, method: req.Method})
